@@ -62,7 +62,11 @@ func (w *world) Get(entity Entity, componentId ComponentId) any {
 	if !w.Alive(entity) {
 		return nil
 	}
-	return w.archetypes.get(componentId).storage.Get(entity.id(), componentId)
+	arch, exists := w.archetypes.entities[entity]
+	if !exists || !arch.mask.IsSet(componentId) {
+		return nil
+	}
+	return arch.storage.Get(entity.id(), componentId)
 }
 
 func (w *world) Alive(entity Entity) bool {
